@@ -93,18 +93,14 @@ namespace DFS
 	// in the root.  So, it's possible that this assertion may
 	// fire for non-root HDFS directories.
 	assert(disc_format() != Format::HDFS);
-	if (byte106 & 4)
-	  {
-	    // Watford large disk; TODO: decide whether the Format
-	    // enum should distinguish those.
-	    assert(disc_format() == Format::WDFS);
-	  }
-	else
-	  {
-	    assert(disc_format() == Format::WDFS ||
-		   disc_format() == Format::DFS ||
-		   disc_format() == Format::OpusDDOS);
-	  }
+	// Bit 2 is set for a Watford large disk (TODO: decide whether
+	// the Format enum should distinguish those) but the format
+	// probe does not look at it, so it tells us nothing certain
+	// about disc_format(): this byte comes from the image file and
+	// must not be the subject of an assertion.
+	assert(disc_format() == Format::WDFS ||
+	       disc_format() == Format::DFS ||
+	       disc_format() == Format::OpusDDOS);
       }
   }
 
